@@ -91,7 +91,7 @@ class C13(common.Spec):
 
     def emit(self, case, obs):
         if obs['exc'] and obs['exc'].startswith('OTHER'):
-            raise common.Broken(f"unexpected exception {obs['exc']} for {case}")
+            raise common.HarnessProblem(f"unexpected exception {obs['exc']} for {case}")
         inp = case['input']
         if isinstance(inp, str):
             cin = f"(IStr {cchars(inp)})"
